@@ -107,22 +107,8 @@ impl PerVisibleAlphabetConstraints {
                         }
                     }
                     ElementOrSetOperation::SetOperation(s) => {
-                        fn flatten_set(elems: &mut Vec<SubtypeElements>, set: &SetOperation) {
-                            elems.push(set.base.clone());
-                            match &*set.operant {
-                                ElementOrSetOperation::Element(e2) => elems.push(e2.clone()),
-                                ElementOrSetOperation::SetOperation(inner) => {
-                                    flatten_set(elems, inner)
-                                }
-                            }
-                        }
-                        let mut elems = Vec::new();
-                        flatten_set(&mut elems, s);
-                        for elem in elems {
-                            if let Some(mut p) = Self::from_subtype_elem(Some(&elem), string_type)?
-                            {
-                                result += &mut p;
-                            }
+                        if let Some(mut p) = Self::from_set_operation(s, string_type)? {
+                            result += &mut p;
                         }
                     }
                 }
@@ -192,21 +178,95 @@ impl PerVisibleAlphabetConstraints {
                 extensible: _,
             }) => {
                 if let ASN1Type::CharacterString(c_string) = subtype {
-                    let mut permitted_alphabet =
-                        PerVisibleAlphabetConstraints::default_for(string_type);
-                    for c in &c_string.constraints {
-                        if let Some(mut p) = PerVisibleAlphabetConstraints::try_new(c, c_string.ty)?
-                        {
-                            permitted_alphabet += &mut p
-                        }
-                    }
-                    Ok(Some(permitted_alphabet))
+                    Ok(Some(PerVisibleAlphabetConstraints::try_from_constraints(
+                        &c_string.constraints,
+                        c_string.ty,
+                    )?))
                 } else {
                     Ok(None)
                 }
             }
             _ => Ok(None),
         }
+    }
+
+    /// Evaluates a set operation inside a permitted alphabet constraint.
+    /// See ITU-T X.691 clause 10.3.21: an `EXCEPT` and the value set following it are ignored.
+    fn from_set_operation(
+        set: &SetOperation,
+        string_type: CharacterStringType,
+    ) -> Result<Option<Self>, GrammarError> {
+        let base = Self::from_subtype_elem(Some(&set.base), string_type)?;
+        if set.operator == SetOperator::Except {
+            return Ok(base);
+        }
+        let operant = match &*set.operant {
+            ElementOrSetOperation::Element(e) => Self::from_subtype_elem(Some(e), string_type)?,
+            ElementOrSetOperation::SetOperation(inner) => {
+                Self::from_set_operation(inner, string_type)?
+            }
+        };
+        Ok(match (base, operant) {
+            (Some(mut base), Some(mut operant)) => {
+                if set.operator == SetOperator::Intersection {
+                    base.intersect(&operant);
+                } else {
+                    base += &mut operant;
+                }
+                Some(base)
+            }
+            // X.691 10.3.21: a union with a part that is not PER-visible is not PER-visible,
+            // in an intersection the parts that are not PER-visible are ignored
+            (_, _) if set.operator == SetOperator::Union => None,
+            (base, operant) => base.or(operant),
+        })
+    }
+
+    /// Builds the permitted alphabet of a list of serially applied constraints,
+    /// i.e. the intersection of the alphabets of the individual constraints.
+    pub fn try_from_constraints(
+        constraints: &[Constraint],
+        string_type: CharacterStringType,
+    ) -> Result<Self, GrammarError> {
+        let mut permitted_alphabet: Option<Self> = None;
+        for c in constraints {
+            if let Some(p) = Self::try_new(c, string_type)? {
+                match permitted_alphabet.as_mut() {
+                    Some(alphabet) => alphabet.intersect(&p),
+                    None => permitted_alphabet = Some(p),
+                }
+            }
+        }
+        Ok(permitted_alphabet.unwrap_or_else(|| Self::default_for(string_type)))
+    }
+
+    /// Restricts `self` to the characters that are also permitted by `rhs`.
+    fn intersect(&mut self, rhs: &PerVisibleAlphabetConstraints) {
+        fn bounds(subset: &CharsetSubset) -> (char, char) {
+            match subset {
+                CharsetSubset::Single(c) => (*c, *c),
+                CharsetSubset::Range { from, to } => {
+                    (from.unwrap_or('\0'), to.unwrap_or(char::MAX))
+                }
+            }
+        }
+        let mut intersection = Vec::new();
+        for (lhs_from, lhs_to) in self.charset_subsets.iter().map(bounds) {
+            for (rhs_from, rhs_to) in rhs.charset_subsets.iter().map(bounds) {
+                let (from, to) = (lhs_from.max(rhs_from), lhs_to.min(rhs_to));
+                if from == to {
+                    intersection.push(CharsetSubset::Single(from));
+                } else if from < to {
+                    intersection.push(CharsetSubset::Range {
+                        from: Some(from),
+                        to: Some(to),
+                    });
+                }
+            }
+        }
+        self.character_by_index
+            .retain(|_, c| rhs.character_by_index.values().any(|r| r == c));
+        self.charset_subsets = intersection;
     }
 
     pub fn charset_subsets(&self) -> &Vec<CharsetSubset> {
